@@ -232,6 +232,27 @@ func negotiateFor(kind string, wsf *wsflate.Extension) func(httphead.Option) (ht
 	return nil
 }
 
+// earlierClients: handshakes of the same goroutine that ended badly (whatever the upgraders keep between calls -
+// pooled readers and writers, scratch buffers - must not carry over to the next client).
+func earlierClients(k int) {
+	head := "GET /earlier HTTP/1.1\r\nHost: earlier.example\r\nUpgrade: websocket\r\nConnection: Upgrade\r\nSec-WebSocket-Version: 13\r\n"
+	reqs := []string{
+		head + "Sec-WebSocket-Key: dGhlIHNhbXBsZSBub25jZQ==\r\nSec-WebSocket-Protocol: stale-a, stale-b\r\nSec-WebSocket-Extensions: stale-ext; p=1\r\nX-Cut: in the middle of a li",
+		head + "Sec-WebSocket-Protocol: stale-a, stale-b\r\nSec-WebSocket-Extensions: stale-ext; p=1\r\nX-Long: " + strings.Repeat("z", 3000) + "\r\n\r\n",
+		"GET /earlier HTTP/1.0\r\nHost: earlier.example\r\nSec-WebSocket-Protocol: stale-a\r\n\r\n",
+		head + "Sec-WebSocket-Key: dGhlIHNhbXBsZSBub25jZQ==\r\nSec-WebSocket-Protocol: stale-a, stale-b\r\nSec-WebSocket-Extensions: stale-ext; p=1, =[\r\n\r\n",
+	}
+	r := reqs[k%len(reqs)]
+	u := ws.Upgrader{Protocol: func([]byte) bool { return true }, Extension: func(httphead.Option) bool { return true }}
+	u.Upgrade(xport.RW{Reader: strings.NewReader(r), Writer: io.Discard})
+	if k%2 == 0 {
+		// ... and one whose response could not be written
+		rec := xport.NewRec()
+		rec.FailAt = 0
+		ws.Upgrader{}.Upgrade(xport.RW{Reader: strings.NewReader(head + "Sec-WebSocket-Key: dGhlIHNhbXBsZSBub25jZQ==\r\n\r\n"), Writer: rec})
+	}
+}
+
 func runUpgrader(cfg Cfg, req *gen.Req, plan xport.Plan) outcome {
 	var out outcome
 	out.reached = true
@@ -287,6 +308,11 @@ func runUpgrader(cfg Cfg, req *gen.Req, plan xport.Plan) outcome {
 		u.OnHost = func([]byte) error { return nil }
 		u.OnHeader = func(k, v []byte) error { out.hdrCalls++; return nil }
 		u.OnBeforeUpgrade = func() (ws.HandshakeHeader, error) { return ws.HandshakeHeaderString("X-Before: upgrade\r\n"), nil }
+	}
+	if (len(req.Bytes())+cfg.RBuf)%3 == 0 {
+		// the process has answered other clients before this one: a request that stopped in the middle of a header
+		// line, one refused at the end of a long head, one that offered subprotocols and extensions and then failed
+		earlierClients(len(req.Bytes()))
 	}
 	ch := xport.NewChunker(req.Bytes(), plan)
 	rec := xport.NewRec()
